@@ -1,8 +1,8 @@
 (* C12 — Cumulative products equal the sequential left/right fold for every length.
    Only statements here; proofs are in Proofs/Cumops.v. *)
-From Coq Require Import List Arith ZArith.
+From Coq Require Import List Arith ZArith Reals.
 Import ListNotations.
-From PV Require Import Model.Cumops Proofs.Cumops Proofs.Cumops2.
+From PV Require Import Base.Num Model.Cumops Model.LieGroup Proofs.Cumops Proofs.Cumops2 Proofs.Cumops3 Proofs.LieGroup Proofs.Cumops4.
 
 (* cumops: every length L >= 1, every associative op: position i holds x_0 o ... o x_i *)
 Theorem C12_cumops_is_fold :
@@ -59,3 +59,62 @@ Theorem C12_old_schedule_refuted :
 Proof. exact cumops_old_refuted. Qed.
 Print Assumptions C12_old_schedule_refuted.
 Print Assumptions C12_cumops_along_any_dim.
+
+(* ================= strengthening round (Proofs/Cumops3.v, Cumops4.v) ================= *)
+
+(* operations that are associative only on a subset P closed under the operation (e.g. the SE3 / Sim3 products,
+   associative on unit-quaternion elements only): every L >= 1, outputs stay in P, position i = ordered product *)
+Theorem C12_cumops_is_fold_on_closed_subset :
+  forall (A : Type) (op : A -> A -> A) (P : A -> Prop), (forall a b, P a -> P b -> P (op a b)) ->
+  (forall a b c, P a -> P b -> P c -> op (op a b) c = op a (op b c)) ->
+  forall (d : A), P d -> forall (x : list A), 1 <= length x -> Forall P x ->
+  exists r, cumops_model op x = Some r /\ length r = length x /\ Forall P r /\
+            forall i, i < length x -> nth i r d = prefix A op d x i.
+Proof. exact cumops_correct_on. Qed.
+Print Assumptions C12_cumops_is_fold_on_closed_subset.
+
+(* all four group types, both orders, every length: cumprod / cummul of valid elements returns at position i
+   x_i o ... o x_0 (left) or x_0 o ... o x_i (right), and every output is a valid element again *)
+Theorem C12_cumprod_SO3 : forall (left : bool) (x : list quatR), 1 <= length x -> Forall valid_SO3 x ->
+  exists r, cumprod_model SO3_mul left x = Some r /\ length r = length x /\ Forall valid_SO3 r /\
+            forall i, i < length x ->
+              nth i r SO3_id = (if left then lprefix quatR SO3_mul SO3_id else rprefix quatR SO3_mul SO3_id) x i.
+Proof. exact cumprod_SO3. Qed.
+Theorem C12_cumprod_SE3 : forall (left : bool) (x : list se3R), 1 <= length x -> Forall valid_SE3 x ->
+  exists r, cumprod_model SE3_mul left x = Some r /\ length r = length x /\ Forall valid_SE3 r /\
+            forall i, i < length x ->
+              nth i r SE3_id = (if left then lprefix se3R SE3_mul SE3_id else rprefix se3R SE3_mul SE3_id) x i.
+Proof. exact cumprod_SE3. Qed.
+Theorem C12_cumprod_RxSO3 : forall (left : bool) (x : list rxso3R), 1 <= length x -> Forall valid_RxSO3 x ->
+  exists r, cumprod_model RxSO3_mul left x = Some r /\ length r = length x /\ Forall valid_RxSO3 r /\
+            forall i, i < length x ->
+              nth i r RxSO3_id = (if left then lprefix rxso3R RxSO3_mul RxSO3_id else rprefix rxso3R RxSO3_mul RxSO3_id) x i.
+Proof. exact cumprod_RxSO3. Qed.
+Theorem C12_cumprod_Sim3 : forall (left : bool) (x : list sim3R), 1 <= length x -> Forall valid_Sim3 x ->
+  exists r, cumprod_model Sim3_mul left x = Some r /\ length r = length x /\ Forall valid_Sim3 r /\
+            forall i, i < length x ->
+              nth i r Sim3_id = (if left then lprefix sim3R Sim3_mul Sim3_id else rprefix sim3R Sim3_mul Sim3_id) x i.
+Proof. exact cumprod_Sim3. Qed.
+(* why the closed-subset form is needed: SE3_mul is not associative on all of R^7 *)
+Theorem C12_SE3_product_not_associative_off_the_group :
+  ~ (forall a b c : se3R, SE3_mul (SE3_mul a b) c = SE3_mul a (SE3_mul b c)).
+Proof. exact SE3_mul_not_associative. Qed.
+Print Assumptions C12_cumprod_SO3. Print Assumptions C12_cumprod_SE3. Print Assumptions C12_cumprod_RxSO3.
+Print Assumptions C12_cumprod_Sim3. Print Assumptions C12_SE3_product_not_associative_off_the_group.
+
+(* the model's stride count Nat.log2_up L is the source's (L-1).bit_length(); the passes use exactly the strides
+   1, 2, 4, ... 2^(k-1), all < L (so arange(i, L) never raises), and 2^k >= L (so the window covers every prefix) *)
+Theorem C12_stride_schedule : forall L : nat, 1 <= L ->
+  length (strides L) = bit_length (L - 1) /\
+  (forall i, i < length (strides L) -> nth i (strides L) 0 = 2 ^ i /\ 2 ^ i < L) /\
+  L <= 2 ^ length (strides L).
+Proof. exact strides_spec. Qed.
+Theorem C12_bit_length_is_the_binary_length : forall n : nat, 0 < n -> 2 ^ (bit_length n - 1) <= n < 2 ^ bit_length n.
+Proof. exact bit_length_spec. Qed.
+Print Assumptions C12_stride_schedule. Print Assumptions C12_bit_length_is_the_binary_length.
+
+(* associativity cannot be dropped: with subtraction on Z the scan of [1;2;3;4] ends in 0, the fold in -8 *)
+Theorem C12_associativity_needed :
+  cumops_model Z.sub [1; 2; 3; 4]%Z = Some [1; -1; 2; 0]%Z /\ prefix Z Z.sub 0%Z [1; 2; 3; 4]%Z 3 = (-8)%Z.
+Proof. exact assoc_needed. Qed.
+Print Assumptions C12_associativity_needed.
